@@ -998,3 +998,8 @@ def run(F, R, config="all"):
         sub.obligations = [o for o in sub.obligations if "storage::" in o["site"] or o["ok"]]
     K.borrow_rule(R, _storage_only, "C14-R11", "no storage backend drops a Result without looking at it (C13-R6 analysis): a chunk or row whose write failed is reported, "
                   "not silently missing from the trace", only_rules={"C13-R6"})
+    # the event arrays are trimmed to the largest recorded count per phase: a lexicographic maximum of (warmup, sampling) pairs cuts recorded events off
+    from . import c15
+    if "zarr" in (([c for c in F.crates if c["name"] == "nuts_rs"] or [{}])[0].get("features") or []):
+        K.borrow_rule(R, lambda sub: c15.r6(F, sub), "C14-R12", "event arrays keep every recorded event: per-dimension event counts of several chains are combined "
+                      "component-wise, never by ordering (warmup, sampling) tuples (C15-R6 analysis)", only_rules={"C15-R6"})
